@@ -144,7 +144,8 @@ def run_shard(desc):
             labels.append(None)
     part = {"evaluations": 0, "classes": set(), "violations": [], "samples": [], "abstained": 0, "inconclusive": [], "counts": {"wl_" + kind: 0, "expected_err": 0, "expected_ok": 0, "profile_pairs_compared": 0}}
     outs = {}
-    for profile in ("verifdbg", "release"):
+    import os
+    for profile in (("verifdbg",) if os.environ.get("VERIF_TOOL") else ("verifdbg", "release")):
         res, events = evalcheck.run_programs(PROP, "%s-%d-%s" % (kind, si, profile), progs, profile, check_ctx=True)
         outs[profile] = res
         for p, label, (st, detail, rec, exp, ev) in zip(progs, labels, res):
@@ -171,7 +172,7 @@ def run_shard(desc):
                 part["violations"].append({"sig": ["crash", kind_], "what": detail, "replay": None})
             else:
                 part["inconclusive"].append("%s: %s" % (kind_, detail))
-    for p, a, b in zip(progs, outs["verifdbg"], outs["release"]):
+    for p, a, b in zip(progs, outs["verifdbg"], outs.get("release", [])):
         if a[2] is None or b[2] is None:
             continue
         ra, rb = a[2].get("res"), b[2].get("res")
@@ -203,6 +204,11 @@ def run(rep, tier):
     rep.extra["exhaustive"] = True
     rep.extra["exhaustive_space"] = "fault product of %d programs, each under 2 profiles" % len(product())
     rep.floor = 10000
+
+
+def san_shards(tier):
+    """arithmetic UB (unchecked shifts, overflow in the dependency) shows up under Miri even where release would mask it"""
+    return [("miri", [("product", i, 128, 0) for i in range(16)] + [("tree", 100 + i, 0, 25) for i in range(16)])]
 
 
 def replay(path):
